@@ -2565,7 +2565,17 @@ BTreeType_setattro(PyTypeObject* type, PyObject* name, PyObject* value)
     }
 
     if (allowed) {
-        PyDict_SetItem(type->tp_dict, name, value);
+        if (value == NULL) {
+            /* del cls.max_leaf_size */
+            if (PyDict_DelItem(type->tp_dict, name) < 0) {
+                if (PyErr_ExceptionMatches(PyExc_KeyError))
+                    PyErr_SetObject(PyExc_AttributeError, name);
+                return -1;
+            }
+        }
+        else {
+            PyDict_SetItem(type->tp_dict, name, value);
+        }
         PyType_Modified(type);
         if (PyErr_Occurred()) {
             return -1;
